@@ -334,6 +334,44 @@ Lemma verify_lookup_nonblank w root n :
   let r := get_meta w root n in mk_out (r_err r) MNone (r_fs r) (r_log r) [].
 Proof. intros H. unfold verify_lookup, verify_calls. now rewrite H. Qed.
 
+(* the full fragment: nothing happens, or it is the lookup of the attribute's value *)
+Lemma verify_x_str w root s : verify_x w root (VStr s) false true = verify_lookup w root s.
+Proof.
+  unfold verify_x, verify_plan, verify_lookup, verify_calls. now destruct (all_space s).
+Qed.
+
+Lemma verify_x_reduces w root a mb pm :
+  (verify_x w root a mb pm = mk_out (fst (verify_plan a mb pm)) MNone w [] []
+   /\ snd (verify_plan a mb pm) = []
+   /\ (fst (verify_plan a mb pm) = ENone <-> a = VAbsent))
+  \/ (exists s, a = VStr s /\ mb = false /\ pm = true /\ all_space s = false
+                /\ snd (verify_plan a mb pm) = [CGet s]
+                /\ verify_x w root a mb pm = verify_lookup w root s).
+Proof.
+  destruct a as [|s| |s].
+  - left. cbn. repeat split; auto.
+  - left. cbn. repeat split; auto; discriminate.
+  - left. cbn. repeat split; auto; discriminate.
+  - destruct (all_space s) eqn:SP.
+    + left. unfold verify_x, verify_plan. rewrite SP. cbn. repeat split; auto; discriminate.
+    + destruct mb.
+      * left. unfold verify_x, verify_plan. rewrite SP. cbn. repeat split; auto; discriminate.
+      * destruct pm.
+        -- right. exists s. repeat split; auto.
+           ++ unfold verify_plan. now rewrite SP.
+           ++ apply verify_x_str.
+        -- left. unfold verify_x, verify_plan. rewrite SP. cbn. repeat split; auto; discriminate.
+Qed.
+
+(* the input with the same world and root and another operation *)
+Definition with_op (i : input) (o : op) : input :=
+  mk_input (i_world i) (i_extra i) (i_root i) o.
+
+Lemma exec_verify_x_as_verify i s t :
+  i_op i = OVerifyX (VStr s) false true t ->
+  exec_op i = exec_op (with_op i (OVerify s)).
+Proof. intros O. unfold exec_op. rewrite O. cbn. apply verify_x_str. Qed.
+
 (* C16_contained, rejected half *)
 Lemma name_op_invalid i name :
   name_op i name -> valid_name name = false ->
@@ -848,12 +886,22 @@ Lemma exec_op_pure i :
   wf i = true -> existsb mutating (r_log (exec_op i)) = false -> r_fs (exec_op i) = world i.
 Proof.
   unfold wf. rewrite andb_true_iff. intros (A & W) Pu.
-  destruct (i_op i) as [name|name|name| |s ow|ex es|name] eqn:O.
+  destruct (i_op i) as [name|name|name| |a mb pm tr|s ow|ex es|name] eqn:O.
   1-3: assert (NO : name_op i name) by (unfold name_op; rewrite O; auto);
        destruct (valid_name name) eqn:V;
        [ destruct (name_op_step i name A NO V) as ((_ & _ & M) & _); exact (M Pu)
        | destruct (name_op_invalid i name NO V) as (_ & _ & F); exact F ].
   - unfold exec_op. now rewrite O.
+  - destruct (verify_x_reduces (world i) (i_root i) a mb pm)
+      as [(E & _) | (s & -> & -> & -> & _ & _ & _)].
+    + unfold exec_op. now rewrite O, E.
+    + rewrite (exec_verify_x_as_verify i s tr O) in *.
+      set (i' := with_op i (OVerify s)) in *.
+      assert (NO : name_op i' s) by (right; right; reflexivity).
+      change (world i) with (world i').
+      destruct (valid_name s) eqn:V.
+      * destruct (name_op_step i' s A NO V) as ((_ & _ & M) & _). exact (M Pu).
+      * destruct (name_op_invalid i' s NO V) as (_ & _ & F). exact F.
   - rewrite !andb_true_iff, negb_true_iff in W. destruct W as ((_ & _) & NS).
     apply String.eqb_neq in NS.
     pose proof (install_contained (world i) (i_root i) s ow A NS) as IC.
@@ -997,11 +1045,34 @@ Qed.
 Lemma model_spec_ok i : wf i = true -> spec_ok i (model i) = true.
 Proof.
   unfold wf. rewrite andb_true_iff. intros (A & W). unfold spec_ok.
-  destruct (i_op i) as [name|name|name| |s ow|ex es|name] eqn:O.
+  destruct (i_op i) as [name|name|name| |a mb pm tr|s ow|ex es|name] eqn:O.
   - apply name_ops_meet_oracle; auto.
   - apply name_ops_meet_oracle; auto.
   - apply name_ops_meet_oracle; auto 6.
   - unfold model, exec_op. rewrite O. reflexivity.
+  - destruct (verify_x_reduces (world i) (i_root i) a mb pm)
+      as [(E & SN & EN) | (s & -> & -> & -> & _ & _ & _)].
+    + remember (fst (verify_plan a mb pm)) as e eqn:He.
+      assert (M : model i = mk_obs e MNone [] [] [] []).
+      { unfold model, exec_op. now rewrite O, E. }
+      rewrite M.
+      destruct a as [|s0| |s0].
+      * cbn in He. subst e. reflexivity.
+      * cbn in He. subst e. reflexivity.
+      * cbn in He. subst e. reflexivity.
+      * destruct (mb || negb pm) eqn:Q.
+        -- assert (NE : e <> ENone) by (intros F; apply EN in F; discriminate).
+           cbn. destruct e; cbn; congruence || reflexivity.
+        -- apply orb_false_iff in Q as (-> & Q). apply negb_false_iff in Q. subst pm.
+           unfold verify_plan in He, SN. destruct (all_space s0) eqn:SP; cbn in He, SN.
+           ++ subst e. unfold name_ok. cbn. now rewrite SP.
+           ++ discriminate.
+    + cbn.
+      assert (M : model i = model (with_op i (OVerify s))).
+      { unfold model. rewrite (exec_verify_x_as_verify i s tr O). reflexivity. }
+      rewrite M.
+      change (name_ok (with_op i (OVerify s)) (model (with_op i (OVerify s))) true false s = true).
+      apply name_ops_meet_oracle; [exact A | auto 6].
   - rewrite !andb_true_iff, negb_true_iff in W. destruct W as (_ & NS).
     apply String.eqb_neq in NS. eapply install_meets_oracle; eauto.
   - unfold model, exec_op. rewrite O. cbn. unfold list_plugins.
